@@ -814,7 +814,7 @@ fn blocks(alpha: usize, nprefix: usize, max_len: usize, max_len_prefixed: usize)
 }
 
 pub fn run_c16(env: &mut Env) -> RunResult {
-    let (ml, mlp) = env.tier.sel((6, 6), (8, 7));
+    let (ml, mlp) = env.tier.sel((6, 6), (9, 7));
     let b = blocks(FILTER_ALPHA.len(), FILTER_PREFIXES.len(), ml, mlp);
     let n = b.len() as u64;
     env.run_enum(C16_BLOCK, n, true, move |i| b[i as usize].clone())?;
@@ -853,7 +853,7 @@ pub fn run_c17(env: &mut Env) -> RunResult {
         .map(|s| Input::Text(s.as_bytes().to_vec()))
         .collect();
     env.run_inputs(C17_SINGLE, &reg)?;
-    env.run_tapes(C17_RANDOM, env.tier.sel(4_000, 60_000), 60)?;
+    env.run_tapes(C17_RANDOM, env.tier.sel(4_000, 600_000), 60)?;
     env.require("c17.random", "multi-byte-share-name");
     env.require("c17.random", "shared-filter-begins-with-slash");
     env.require("c17.block", "shared-filters");
@@ -862,7 +862,7 @@ pub fn run_c17(env: &mut Env) -> RunResult {
 }
 
 pub fn run_c18(env: &mut Env) -> RunResult {
-    let (ml, mlp) = env.tier.sel((6, 5), (7, 7));
+    let (ml, mlp) = env.tier.sel((6, 5), (8, 7));
     let b = blocks(NAME_ALPHA.len(), NAME_PREFIXES.len(), ml, mlp);
     let n = b.len() as u64;
     env.run_enum(C18_BLOCK, n, true, move |i| b[i as usize].clone())?;
